@@ -34,12 +34,17 @@ PARSER = 'hail/hail/src/is/hail/expr/ir/Parser.scala'
 PLAN = {
     'quick': [('value', 3, False, 2, False), ('strict', 3, False, 2, False), ('agg', 3, False, 2, False),
               ('scan', 3, False, 2, False), ('aggcore', 4, False, 2, False), ('scancore', 5, False, 3, False),
-              ('value-core', 3, True, 2, False), ('value-core', 3, False, 2, True)],
+              ('value-core', 3, True, 2, False), ('value-core', 3, False, 2, True),
+              ('grp', 3, False, 2, False), ('grps', 3, False, 2, False), ('ape', 3, False, 1, False),
+              ('apes', 3, False, 1, False), ('grp', 3, False, 2, True), ('grps', 3, False, 2, True)],
     'thorough': [('bind4', 4, False, 4, True), ('strict4', 4, False, 4, False), ('agg', 4, False, 4, False),
                  ('scan', 4, False, 4, False), ('let5', 5, False, 4, False), ('if5', 5, False, 4, False),
                  ('aggcore', 5, False, 4, False), ('scancore', 6, False, 5, False), ('value', 3, False, 2, False),
                  ('strict', 3, False, 2, False), ('value-core', 3, True, 2, False), ('agg', 3, True, 2, False),
-                 ('value-core', 3, False, 2, True)],
+                 ('value-core', 3, False, 2, True),
+                 ('grp', 4, False, 3, False), ('grps', 4, False, 3, False), ('ape', 4, False, 2, False),
+                 ('apes', 4, False, 2, False), ('grp', 4, False, 3, True), ('grps', 4, False, 3, True),
+                 ('ape', 3, False, 1, True), ('apes', 3, False, 1, True)],
 }
 WORKERS = 8
 _RANK = ['discharged', 'known', 'not_discharged', 'violated']
@@ -86,6 +91,8 @@ def run(R):
             'max_new_nodes': n, 'kinds': C35_shapes.FAMILIES[fam]['kinds'], 'leaf_pool': C35_shapes.FAMILIES[fam]['leaves']}
             for fam, n, sh, _, api in plan},
         'arrays': 'free arrays A (int32) and B (int64): 2 symbolic elements, each present or absent (length 0..2); '
+                  'C (int64, the rows of the wrapped scan families grps/apes): 3 symbolic elements (an exclusive scan '
+                  'needs a row with two earlier rows to tell a per-key from an ungrouped running value); '
                   'MakeArray of 2 elements',
         'integers': 'int32 / int64 as 32 / 64-bit bit-vectors (wrapping), all values',
         'node_count': 'non-leaf nodes per DAG <= max_new_nodes (pooled leaves x, c=I32 7, p, y, d=I64 7, A, B and '
@@ -97,8 +104,14 @@ def run(R):
              'map/filter/fold, len) on expression variables; the others call the hail.ir constructors directly',
              'binder names are unique per binder as Env.get_uid() makes them (families marked shadowed-names reuse one '
              'name for every binder: IR-level only, the Python API cannot produce it)',
-             'aggregations: only Sum, AggFilter, AggLet, StreamAgg, StreamAggScan (exclusive prefix) are modelled; '
-             'aggregations below stream lambdas are not generated',
+             'aggregations: ApplyAggOp / ApplyScanOp for Sum and Count, AggFilter, AggLet, AggGroupBy (value = dict from '
+             'key to the aggregation over the rows of that key, compared as a set of entries), AggExplode (one row per '
+             'element), AggArrayPerElement (arrays of one static length; over zero rows it yields no elements where Hail '
+             'yields a missing value), each for the agg and the scan context, StreamAgg, StreamAggScan (exclusive prefix); '
+             'aggregations below stream lambdas are not generated; families grp/grps/ape/apes wrap the generated body in '
+             'StreamAgg(ToStream B, e, body) resp. ToArray(StreamAggScan(ToStream C, e, body)) (not counted) and, via-hl-API, '
+             'build it with B.aggregate / C._to_stream()._aggregate_scan and hl.agg|hl.scan.count/sum/filter/group_by/'
+             'explode/array_agg on top-level references; shapes the aggregator API refuses are dropped',
              'paths whose CSE text is token-identical to the plain text contribute the constant false to the batch '
              'query (same tokens = same parse = same value)',
              'the shape space is finite and enumerated through solver-decided forks; the solver proves the value '
